@@ -7,3 +7,4 @@ open AgdbStorage
 #print axioms C04_optimize
 #print axioms C04_reopen
 #print axioms C04_invariant
+#print axioms C04_calls_wellformed
